@@ -16,6 +16,7 @@ from fsmc import bases, tissue as T, fsutil
 from fsmc.ref import mesh as RM, sedump
 from checks import c11
 
+REPO = os.environ.get("FORSYS_REPO", "/repo")
 PID = "C09"
 RULE = ("states = meshes reachable from a parser output by histories over {generate_mesh x8, Frame, hold, release, gc}; de-duplicated on the full mesh snapshot; "
         "non-trivial = history contains an edit; classes = (source, vertices, edges, cells, history signature)")
@@ -239,8 +240,8 @@ def build(tier, seed):
                 MeshHistories("subtissues-depth2", [["direct", "v5x4", S, k] for S in subs for k in (0, 2)], 2, light)]
     subs2 = T.connected_subsets(bases.get("v5x5"), min_size=1)
     more = few + [["se", "v5x5", None, 0], ["wkt", "v5x5", hole, 2], ["tess", 6, 6, seed + 2, 1000.0]]
-    files = [["se_file", "/repo/tests/data/furrow_gauss_velocity/stage0.dmp"], ["se_file", "/repo/tests/data/12_12/step_20.dmp"],
-             ["skeleton", "/repo/tests/data/test_nonzero.tif"]]
+    files = [["se_file", REPO + "/tests/data/furrow_gauss_velocity/stage0.dmp"], ["se_file", REPO + "/tests/data/12_12/step_20.dmp"],
+             ["skeleton", REPO + "/tests/data/test_nonzero.tif"]]
     return [MeshHistories("parsers-depth4", more, 4),
             MeshHistories("subtissues-depth2", [["direct", "v5x5", S, k] for S in subs2 for k in (0, 2)], 2, light),
             MeshHistories("shipped-depth2", files, 2, light)]
